@@ -10,7 +10,8 @@ CONSTANTS MaxCalls,      \* budget of tag/view API calls
           Menu,          \* which definition menu to use: "tags" | "files" | "conv"
           Invalid,       \* TRUE: also issue calls that must be rejected (C11)
           Crashes,       \* TRUE: also take crash copies of the data directory (C12; no effect on the model state)
-          Restarts       \* TRUE: the process may be killed between two steps and restarted (C12; spends a call)
+          Restarts,      \* TRUE: the process may be killed between two steps and restarted (C12; spends a call)
+          Extra          \* subset of {"rename", "color", "settings"}: further API calls to issue
 
 VARIABLES clock, calls,
           lost,          \* history: captures that were only queued when the process was killed (never imported afterwards)
@@ -46,9 +47,13 @@ BadDefsFor(name) ==      \* definitions that make a call invalid
 Ev(a, k, name, def, ids, v) == [a |-> a, k |-> k, name |-> name, def |-> def, ids |-> ids, v |-> v, convs |-> <<>>, what |-> "", cut |-> 0]
 E0(a) == Ev(a, 0, "", NoDef, <<>>, "")
 EvC(a, name, cs, v, k) == [a |-> a, k |-> k, name |-> name, def |-> NoDef, ids |-> <<>>, v |-> v, convs |-> cs, what |-> "", cut |-> 0]
+EvW(a, name, what, v, k) == [a |-> a, k |-> k, name |-> name, def |-> NoDef, ids |-> <<>>, v |-> v, convs |-> <<>>, what |-> what, cut |-> 0]
 EvX(what, cut) == [a |-> "Crash", k |-> 0, name |-> "", def |-> NoDef, ids |-> <<>>, v |-> "", convs |-> <<>>, what |-> what, cut |-> cut]
 ConvLists == {<<>>} \cup {<<c>> : c \in ConvNames} \cup (IF Invalid THEN {<<"ghost">>} \cup {<<c, "ghost">> : c \in ConvNames} ELSE {})
 IdLists == {<<0>>, <<1>>, <<0, 2>>, <<7>>}
+Colors == {"#111111", "#222222"}
+HookUrls == {"http://127.0.0.1:9/h1", "http://127.0.0.1:9/h2"}
+EndpointAddrs == {"127.0.0.1:1", "127.0.0.1:2"}
 
 JobEvents == {E0(a) : a \in {"ImportCompute", "ImportDone", "TagCompute", "TagDone", "MergeCompute", "MergeDone",
                              "ConvCompute", "ConvDone"}}
@@ -63,6 +68,13 @@ ApiEvents ==
     \cup {Ev("ViewRelease", 0, "", NoDef, <<>>, v) : v \in DOMAIN views}
     \cup (IF Crashes THEN {EvX(w, c) : w \in {"none", "state", "idx"}, c \in {1, 7, 40, 97, 333, 1001}} ELSE {})
     \cup (IF Restarts THEN {E0("Restart")} ELSE {})
+    \cup (IF "rename" \in Extra THEN {EvW("UpdName", q[1], "", q[2], 0) : q \in {x \in TagNames \X (TagNames \cup (IF Invalid THEN {"tag/", "zzz/x", ""} ELSE {})) : x[1] # x[2]}} ELSE {})
+    \cup (IF "color" \in Extra THEN {EvW("UpdColor", n, c, "", 0) : n \in TagNames, c \in Colors} ELSE {})
+    \cup (IF "settings" \in Extra THEN
+             {EvW(a, "", u, "", 0) : a \in {"AddHook", "DelHook"}, u \in HookUrls}
+             \cup {EvW(a, "", u, "", 0) : a \in {"AddEndpoint", "DelEndpoint"}, u \in EndpointAddrs \cup (IF Invalid THEN {"nocolon"} ELSE {})}
+             \cup {EvW("SetConfig", "", "", "", k) : k \in {0, 1}}
+          ELSE {})
     \cup (IF ConvNames = {} THEN {} ELSE
              {EvC("SetConverters", n, cs, "", 0) : n \in TagNames, cs \in ConvLists}
              \cup {EvC("ConvReset", "", <<c>>, "", 0) : c \in ConvNames}
@@ -105,7 +117,7 @@ Step(e) ==
       [] e.a = "ConvCompute"   -> ConvCompute /\ Free
       [] e.a = "ConvDone"      -> (\E p \in AnyP : ConvDone(p)) /\ Free
       [] e.a = "AddTag"        -> /\ e.def \in DefsFor(e.name) \cup BadDefsFor(e.name)
-                                  /\ Call(AddTagOK(e.name, e.def), \E p \in AnyP : AddTag(e.name, e.def, p))
+                                  /\ Call(AddTagOK(e.name, e.def), \E p \in AnyP : AddTag(e.name, e.def, "", p))
       [] e.a = "DelTag"        -> Call(DelTagOK(e.name), DelTag(e.name))
       [] e.a = "UpdQuery"      -> /\ e.def \in DefsFor(e.name) \cup BadDefsFor(e.name)
                                   /\ e.name \in DOMAIN tags => e.def # tags[e.name].def
@@ -117,9 +129,19 @@ Step(e) ==
       [] e.a = "ViewRelease"   -> ViewRelease(e.v) /\ Free
       [] e.a = "Crash"         -> Budget /\ Crashes /\ UNCHANGED vars /\ Spend
       [] e.a = "Restart"       -> /\ Budget /\ Restarts
-                                  /\ \E p \in AnyP : Restart(FilesByName, Durable(tags), p)
+                                  /\ \E p \in AnyP : Restart(FilesByName, Durable(tags), settings, p)
                                   /\ lost' = lost \cup Range(queue)
                                   /\ calls' = calls + 1 /\ epoch' = epoch + 1 /\ UNCHANGED clock /\ KeepKeys
+      [] e.a = "UpdName"       -> \* (an empty new name is "no rename": accepted, nothing changes)
+                                  IF e.v = "" THEN Budget /\ e.name \in DOMAIN tags /\ UNCHANGED vars /\ Spend
+                                  ELSE Call(UpdNameOK(e.name, e.v), UpdName(e.name, e.v))
+      [] e.a = "UpdColor"      -> /\ e.name \in DOMAIN tags => tags[e.name].color # e.what
+                                  /\ Call(UpdColorOK(e.name), UpdColor(e.name, e.what))
+      [] e.a = "AddHook"       -> Call(AddHookOK(e.what), AddHook(e.what))
+      [] e.a = "DelHook"       -> Call(DelHookOK(e.what), DelHook(e.what))
+      [] e.a = "AddEndpoint"   -> Call(AddEndpointOK(e.what), AddEndpoint(e.what))
+      [] e.a = "DelEndpoint"   -> Call(DelEndpointOK(e.what), DelEndpoint(e.what))
+      [] e.a = "SetConfig"     -> Budget /\ settings.cfg # (e.k = 1) /\ SetConfig(e.k = 1) /\ Spend
       [] e.a = "SetConverters" -> Call(SetConvOK(e.name, Range(e.convs)), SetConverters(e.name, Range(e.convs)))
       [] e.a = "ConvReset"     -> Budget /\ ConvReset(e.convs[1]) /\ Spend
       [] e.a = "ViewConvert"   -> Budget /\ ViewConvert(e.v, e.k, e.convs[1]) /\ Spend
@@ -136,6 +158,7 @@ StreamsKeptStep ==
     epoch' # epoch =>
         /\ \A e \in Visible(indexes) : \E e2 \in VisibleIn(files', indexes') : e2[1] = e[1] /\ e2[2] = e[2] /\ e[3] \subseteq e2[3]
         /\ Durable(tags') = [t \in DOMAIN tags |-> [Durable(tags)[t] EXCEPT !.M = IF IsMarkName(t) THEN Durable(tags')[t].M ELSE @]]
+        /\ settings'.hooks = settings.hooks /\ settings'.cfg = settings.cfg /\ Range(settings'.eps) = Range(settings.eps)
 StreamsKeptProp == [][StreamsKeptStep]_mcvars
 
 EnvDone == calls = MaxCalls /\ Caps \subseteq known \cup Range(queue) /\ views = <<>>
